@@ -134,7 +134,7 @@ Proof.
   intros q r H. unfold rnd64 in H. pose proof (Q_as_frac q) as E.
   destruct (Qnum q) as [|n|n] eqn:N.
   - inversion H. subst r.
-    assert (Z0 : (q == 0)%Q) by (rewrite E; unfold Qdiv; ring).
+    assert (Z0 : (q == 0)%Q) by (eapply Qeq_trans; [exact E|]; unfold Qdiv; ring).
     rewrite Z0. vm_compute. discriminate.
   - pose proof (rnd64_pos_error (Zpos n) (Zpos (Qden q)) r ltac:(lia) ltac:(lia) H) as B. cbv zeta in B.
     rewrite <- E in B.
@@ -143,7 +143,7 @@ Proof.
   - destruct (rnd64_pos (Zpos n) (Zpos (Qden q))) as [r'|] eqn:R; [|discriminate]. inversion H. subst r.
     pose proof (rnd64_pos_error (Zpos n) (Zpos (Qden q)) r' ltac:(lia) ltac:(lia) R) as B. cbv zeta in B.
     assert (En : (q == - (inject_Z (Zpos n) / inject_Z (Zpos (Qden q))))%Q).
-    { rewrite E. change (Zneg n) with (- Zpos n). rewrite inject_Z_opp. unfold Qdiv. ring. }
+    { eapply Qeq_trans; [exact E|]. change (Zneg n) with (- Zpos n). rewrite inject_Z_opp. unfold Qdiv. ring. }
     set (q' := (inject_Z (Zpos n) / inject_Z (Zpos (Qden q)))%Q) in *.
     assert (Qp : (0 <= q')%Q).
     { subst q'. rewrite <- (frac_inject (Zpos n) (Zpos (Qden q))) by lia. unfold Qle. cbn. lia. }
